@@ -511,6 +511,13 @@ func (n *slNet) extras(r *rand.Rand) {
 	if len(g.buses) >= 2 && r.Intn(2) == 0 {
 		cb := acmelib.NewCANIDBuilder("builder_shared")
 		cb.UseMessagePriority(26).UseMessageID(8, 12).UseNodeID(0, 8).UseBitMask(0, 29)
+		if r.Intn(2) == 0 {
+			// operations over zero bits are legal: the first two place nothing, the mask keeps nothing
+			cb.UseNodeID(3, 0).UseMessageID(0, 0)
+			if r.Intn(2) == 0 {
+				cb.UseBitMask(5, 0).UseMessageID(2, 6)
+			}
+		}
 		cb.SetDesc("shared by two buses")
 		g.buses[0].SetCANIDBuilder(cb)
 		g.buses[1].SetCANIDBuilder(cb)
@@ -839,7 +846,22 @@ func (x *slRun) c12(seed int64, variant int) string {
 		return "c12-uint32-narrowing"
 	}
 
-	for sub := 1; sub <= 7; sub++ {
+	for phase := 0; phase < 2; phase++ {
+	firstSub := 1
+	if phase == 1 {
+		// a save is a function of the CURRENT model, not of what was saved before: every entity
+		// that has an updater gets another name and another description, and the network is saved
+		// (all three encodings) and loaded again
+		x.setStage("edits between two saves")
+		if n.editAll() == 0 {
+			break
+		}
+		v0 = slBuildView(net, n.custom)
+		id += " (second save, after every name and description was changed)"
+		seenBytes = [3]map[string]bool{{}, {}, {}}
+		firstSub = 7
+	}
+	for sub := firstSub; sub <= 7; sub++ {
 		x.setStage(sprintf("save subset %d", sub))
 		var bufs [3]bytes.Buffer
 		sv := slTry(func() (*acmelib.Network, error) {
@@ -935,6 +957,8 @@ func (x *slRun) c12(seed int64, variant int) string {
 		}
 	}
 
+	}
+
 	// nil writers: every requested encoding in turn gets no writer
 	x.setStage("nil writers")
 	nilCases, nilOK := 0, 0
@@ -989,4 +1013,77 @@ func (x *slRun) c12(seed int64, variant int) string {
 	x.tag(sprintf("diffs:%v", totalDiffs > 0))
 	return sprintf("c12 seed=%d v=%d buses=%d msgs=%d sigs=%d saves=%d loads=%d distinct=%d diffs=%d nilwriter=%d/%d(partial-output=earlier-encodings-written) %s",
 		seed, variant, len(net.Buses()), len(n.g.msgs), len(n.g.sigs), saves, loads, distinct, totalDiffs, nilOK, nilCases, x.tagList())
+}
+
+
+// editAll gives every entity of the network another name and another description through
+// whatever updater its kind offers; it returns the number of edits that were accepted.
+func (n *slNet) editAll() int {
+	edits := 0
+	edit := func(i int, e any) {
+		tag := sprintf("e2x%d_", i)
+		type named interface{ Name() string }
+		nm := ""
+		if x, ok := e.(named); ok {
+			nm = x.Name()
+		}
+		// one entity gets another name only, the next another description only, the third both
+		// (an updater may invalidate what another one forgets to)
+		doName, doDesc := i%3 != 1, i%3 != 0
+		var ne any
+		if doName {
+			ne = e
+		}
+		switch x := ne.(type) {
+		case interface{ UpdateName(string) error }:
+			if x.UpdateName(tag+nm) == nil {
+				edits++
+			}
+		case interface{ UpdateName(string) }:
+			x.UpdateName(tag + nm)
+			edits++
+		case interface{ SetName(string) }:
+			x.SetName(tag + nm)
+			edits++
+		}
+		if x, ok := e.(interface{ SetDesc(string) }); ok && doDesc {
+			x.SetDesc(sprintf("second description %d", i))
+			edits++
+		}
+	}
+	g := n.g
+	i := 0
+	next := func(e any) { i++; edit(i, e) }
+	next(g.net)
+	for _, e := range g.buses {
+		next(e)
+	}
+	for _, e := range g.nodes {
+		next(e)
+	}
+	for _, e := range g.msgs {
+		next(e)
+	}
+	for _, e := range g.sigs {
+		next(e)
+	}
+	for _, e := range g.types {
+		next(e)
+	}
+	for _, e := range g.units {
+		next(e)
+	}
+	for _, e := range g.enums {
+		next(e)
+		for _, v := range e.Values() {
+			next(v)
+		}
+	}
+	for _, e := range g.attrs {
+		next(e)
+	}
+	for _, e := range g.builders {
+		next(e)
+	}
+	return edits
 }
